@@ -20,7 +20,7 @@ Definition occ_td (u : uid) (td : list item) : nat := fold_right (fun it a => oc
 Definition tsum (u : uid) (ts : list thread) : nat := fold_right (fun th a => occ_td u (todo th) + a) 0 ts.
 Definition occ_box (u : uid) (b : mbox) : nat := oc u (qn b) + oc u (qi b).
 Definition bsum (u : uid) (bs : list mbox) : nat := fold_right (fun b a => occ_box u b + a) 0 bs.
-Definition ev_run (u : uid) (e : event) : nat := match e with EvRun v _ _ => ub v u | _ => 0 end.
+Definition ev_run (u : uid) (e : event) : nat := match e with EvRun v _ _ _ => ub v u | _ => 0 end.
 Definition runs (u : uid) (l : list event) : nat := fold_right (fun e a => ev_run u e + a) 0 l.
 
 Lemma oc_app u a b : oc u (a ++ b) = oc u a + oc u b.
@@ -165,7 +165,7 @@ Lemma runs_at_most_once progs nids bds c u : reachable (init progs nids bds) c -
 Proof. intros R. destruct (reachable_fresh _ _ _ _ R u) as (L & _). unfold total in L. lia. Qed.
 
 (* [runs] is the number of EvRun events of u in the log *)
-Lemma runs_is_count u l : runs u l = length (filter (fun e => match e with EvRun v _ _ => if uid_dec v u then true else false | _ => false end) l).
+Lemma runs_is_count u l : runs u l = length (filter (fun e => match e with EvRun v _ _ _ => if uid_dec v u then true else false | _ => false end) l).
 Proof.
   induction l as [|e l IH]; simpl; auto. destruct e; simpl; auto. unfold ub. destruct (uid_dec u0 u); simpl; lia.
 Qed.
